@@ -201,6 +201,19 @@ func (e *Engine) fail(outcome, detail string) {
 }
 
 func (e *Engine) sendRaw(method string, params interface{}, isReq bool, opIdx int) *Answer {
+	e.drain()
+	inflight := 1
+	for _, a := range e.res.Answers {
+		if !a.Done {
+			inflight++
+		}
+	}
+	if inflight > e.res.Probes["max-handlers-in-flight"] {
+		e.res.Probes["max-handlers-in-flight"] = inflight
+	}
+	if inflight >= 2 && !isReq {
+		e.probe("notification-overlapping-request")
+	}
 	m := map[string]interface{}{"jsonrpc": "2.0", "method": method}
 	if params != nil {
 		m["params"] = params
@@ -712,6 +725,14 @@ const DefaultMaxSteps = 400000
 // Run executes the scenario under schedule cfg and returns what was observed.
 func Run(t *testing.T, sc *Scenario, cfg simrt.Config, hooks Hooks) *RunResult {
 	res := &RunResult{Outcome: OutOK, View: map[string][]string{}, Probes: map[string]int{}}
+	// synctest.Test calls FailNow on its *testing.T when the bubble's test failed (which the
+	// testing package decides on its own when the race detector has reported something); a
+	// throw-away subtest absorbs that so the worker loop keeps going.
+	t.Run("run", func(st *testing.T) { runInBubble(st, sc, cfg, hooks, res) })
+	return res
+}
+
+func runInBubble(t *testing.T, sc *Scenario, cfg simrt.Config, hooks Hooks, res *RunResult) {
 	synctest.Test(t, func(t *testing.T) {
 		e := &Engine{sc: sc, res: res, hooks: hooks, byID: map[int]*Answer{}, sentAt: map[int]int{}, Open: map[string][]byte{}, Saved: map[string]bool{}, External: map[string]bool{}, Reverted: map[string]bool{}, version: map[string]int{}}
 		e.budget = hooks.MaxSteps
@@ -789,5 +810,4 @@ func Run(t *testing.T, sc *Scenario, cfg simrt.Config, hooks Hooks) *RunResult {
 			res.Detail = strings.Join(res.Stats.Recovered, " ;; ")
 		}
 	})
-	return res
 }
